@@ -307,7 +307,7 @@ func init() {
 		}
 		n := 1500
 		if thorough() {
-			n = 10000
+			n = 80000
 		}
 		var jobs []func()
 		for i := 0; i < n; i++ {
@@ -338,7 +338,7 @@ func init() {
 		// handler: every type
 		reps := 4
 		if thorough() {
-			reps = 60
+			reps = 300
 		}
 		tkeys := append([]string{}, O.TypeKeys...)
 		sort.Strings(tkeys)
